@@ -14,9 +14,11 @@ import (
 	"fmt"
 	"io"
 	"log/slog"
+	"path"
 	"slices"
 	"sort"
 	"strings"
+	"sync/atomic"
 	"time"
 
 	"reduction.dev/reduction/dkv"
@@ -631,8 +633,39 @@ func (e *ent) Value() []byte  { return e.V }
 func (e *ent) IsDelete() bool { return e.D }
 func (e *ent) SeqNum() uint64 { return e.S }
 
+type fault18 struct {
+	T   int `json:"t"`   // index of the table (level order) whose reads fail during Compact, modulo the number of tables
+	Off int `json:"off"` // reads at or beyond this file offset fail
+}
+
 type step18 struct {
-	Extra [][]ent `json:"extra,omitempty"`
+	Extra [][]ent  `json:"extra,omitempty"`
+	Fault *fault18 `json:"fault,omitempty"`
+}
+
+// faultFS: while armed, ReadAt of the file called failName at or beyond failFrom returns an I/O error (a storage read
+// fault in the middle of a table scan).
+type faultFS struct {
+	storage.FileSystem
+	armed    atomic.Bool
+	failName string
+	failFrom int64
+	faults   atomic.Int64
+}
+
+func (fs *faultFS) New(path string) storage.File { return &faultFile{File: fs.FileSystem.New(path), fs: fs} }
+
+type faultFile struct {
+	storage.File
+	fs *faultFS
+}
+
+func (f *faultFile) ReadAt(p []byte, off int64) (int, error) {
+	if f.fs.armed.Load() && f.Name() == f.fs.failName && off >= f.fs.failFrom {
+		f.fs.faults.Add(1)
+		return 0, errors.New("injected read fault")
+	}
+	return f.File.ReadAt(p, off)
 }
 
 func coqEnt(e ent) string {
@@ -734,6 +767,9 @@ func genC18(r *hx.Rand, idx int) *hx.Case {
 	}
 	seq := uint64(h)
 	nsteps := r.Range(0, 3)
+	if r.Chance(1, 3) {
+		nsteps = r.Range(1, 4)
+	}
 	var ops []json.RawMessage
 	for i := 0; i < nsteps; i++ {
 		var st step18
@@ -750,6 +786,9 @@ func genC18(r *hx.Rand, idx int) *hx.Case {
 				seg = append(seg, e)
 			}
 			st.Extra = append(st.Extra, dedup(seg))
+		}
+		if r.Chance(2, 5) {
+			st.Fault = &fault18{T: r.Intn(12), Off: r.Range(0, 90)}
 		}
 		ops = append(ops, hx.Op(st))
 	}
@@ -853,7 +892,8 @@ func execC18(c *hx.Case) (*hx.Result, error) {
 	if target < 1 {
 		target = 1
 	}
-	tw := sst.NewTableWriter(storage.NewMemoryFilesystem(), 0)
+	ffs := &faultFS{FileSystem: storage.NewMemoryFilesystem()}
+	tw := sst.NewTableWriter(ffs, 0)
 	tabs := make([][]*sst.Table, len(levels))
 	populated := 0
 	tags := map[string]bool{}
@@ -885,10 +925,35 @@ func execC18(c *hx.Case) (*hx.Result, error) {
 	log := []string{"pre: " + strings.Join(preH, " ")}
 	var steps []string
 	nonnil := 0
-	doStep := func(extra [][]ent) (bool, error) {
-		cs, err := comp.Compact(ll)
-		if err != nil {
-			return false, fmt.Errorf("Compact: %v", err)
+	doStep := func(extra [][]ent, fault *fault18) (bool, error) {
+		ffs.faults.Store(0)
+		if fault != nil {
+			var names []string
+			for _, l := range ll.Document() {
+				for _, t := range l {
+					names = append(names, path.Base(t.URI))
+				}
+			}
+			if len(names) > 0 {
+				ffs.failName = names[((fault.T%len(names))+len(names))%len(names)]
+				ffs.failFrom = int64(fault.Off)
+				ffs.faults.Store(0)
+				ffs.armed.Store(true)
+				tags["fault_armed"] = true
+			}
+		}
+		cs, cerr := comp.Compact(ll)
+		ffs.armed.Store(false)
+		hit := fault != nil && ffs.faults.Load() > 0
+		if cerr != nil && !hit {
+			return false, fmt.Errorf("Compact: %v", cerr)
+		}
+		failed := cerr != nil
+		if failed {
+			cs = nil
+			tags["fault_hit_compact_error"] = true
+		} else if hit {
+			tags["fault_hit_but_change_set"] = true
 		}
 		if len(extra) > 0 {
 			ecs := &sst.ChangeSet{}
@@ -913,9 +978,9 @@ func execC18(c *hx.Case) (*hx.Result, error) {
 		if err != nil {
 			return false, err
 		}
-		steps = append(steps, fmt.Sprintf("(CStep %s %s %s %s)", hx.CoqBool(cs != nil), coqTables(extra), rg, post))
-		log = append(log, fmt.Sprintf("step cs=%v extra=%d %s | %s", cs != nil, len(extra), strings.Join(rgH, " "), strings.Join(postH, " ")))
-		return cs != nil, nil
+		steps = append(steps, fmt.Sprintf("(CStep %s %s %s %s %s)", hx.CoqBool(cs != nil), hx.CoqBool(failed), coqTables(extra), rg, post))
+		log = append(log, fmt.Sprintf("step cs=%v failed=%v faultreads=%d extra=%d %s | %s", cs != nil, failed, ffs.faults.Load(), len(extra), strings.Join(rgH, " "), strings.Join(postH, " ")))
+		return cs != nil || failed, nil
 	}
 	last := true
 	for _, raw := range c.Ops {
@@ -923,12 +988,12 @@ func execC18(c *hx.Case) (*hx.Result, error) {
 		if err := json.Unmarshal(raw, &st); err != nil {
 			return nil, err
 		}
-		if last, err = doStep(st.Extra); err != nil {
+		if last, err = doStep(st.Extra, st.Fault); err != nil {
 			return nil, err
 		}
 	}
 	for i := 0; last || i == 0; i++ {
-		if last, err = doStep(nil); err != nil {
+		if last, err = doStep(nil, nil); err != nil {
 			return nil, err
 		}
 		if i > 60 {
